@@ -89,44 +89,63 @@ func (e *Exchange) Cut(err error) {
 	}
 }
 
+// respWriter mimics net/http's server-side buffering: status, headers and body bytes become visible
+// to the client only when the handler calls Flush, when more than 4 KiB are pending, or when the handler
+// returns. (A bare WriteHeader does not reach the client by itself.)
 type respWriter struct {
-	e      *Exchange
-	header http.Header
+	e       *Exchange
+	header  http.Header
+	status  int          // status chosen by WriteHeader (0: none yet)
+	pending bytes.Buffer // written but not yet flushed
 }
 
 func (w *respWriter) Header() http.Header { return w.header }
 
-func (w *respWriter) commitLocked(status int) {
-	if w.e.committed {
-		return
+// flushLocked commits the header (if needed) and moves pending bytes to the visible body.
+func (w *respWriter) flushLocked() {
+	if !w.e.committed {
+		st := w.status
+		if st == 0 {
+			st = http.StatusOK
+		}
+		w.e.committed = true
+		w.e.status = st
+		w.e.respHeader = w.header.Clone()
 	}
-	w.e.committed = true
-	w.e.status = status
-	w.e.respHeader = w.header.Clone()
+	if w.pending.Len() > 0 && !w.e.cut {
+		w.e.written.Write(w.pending.Bytes())
+	}
+	w.pending.Reset()
 	w.e.cond.Broadcast()
 }
 
 func (w *respWriter) WriteHeader(status int) {
 	w.e.mu.Lock()
-	w.commitLocked(status)
+	if w.status == 0 && !w.e.committed {
+		w.status = status
+	}
 	w.e.mu.Unlock()
 }
 
 func (w *respWriter) Write(p []byte) (int, error) {
 	w.e.mu.Lock()
 	defer w.e.mu.Unlock()
-	w.commitLocked(http.StatusOK)
+	if w.status == 0 {
+		w.status = http.StatusOK
+	}
 	if w.e.cut {
 		return 0, ErrCut
 	}
-	w.e.written.Write(p)
-	w.e.cond.Broadcast()
+	w.pending.Write(p)
+	if w.pending.Len() > 4096 {
+		w.flushLocked()
+	}
 	return len(p), nil
 }
 
 func (w *respWriter) Flush() {
 	w.e.mu.Lock()
-	w.commitLocked(http.StatusOK)
+	w.flushLocked()
 	w.e.mu.Unlock()
 }
 
@@ -285,7 +304,7 @@ func (t *Transport) RoundTrip(req *http.Request) (*http.Response, error) {
 				e.Cut(io.ErrUnexpectedEOF)
 			}
 			e.mu.Lock()
-			w.commitLocked(http.StatusOK)
+			w.flushLocked()
 			e.handlerDone = true
 			e.cond.Broadcast()
 			e.mu.Unlock()
